@@ -220,3 +220,14 @@ func b64RawURL(b []byte) string {
 	}
 	return string(out)
 }
+
+func init() {
+	regVerif("verifCmpU64", func(fr *frame, a []value) value {
+		tc := fr.in.tc
+		x, y := a[0].(*Term), a[1].(*Term)
+		return tc.Ite(tc.bin(opBvULt, x, y), tc.Const(64, ^uint64(0)), tc.Ite(tc.Eq(x, y), tc.Const(64, 0), tc.Const(64, 1)))
+	})
+	regVerif("verifIteB", func(fr *frame, a []value) value {
+		return fr.in.tc.Ite(a[0].(*Term), a[1].(*Term), a[2].(*Term))
+	})
+}
